@@ -70,10 +70,10 @@ def RegisterWaitingTunnel : List String := ["time.Now", "now.Add", "makeKey", "s
 def RemoveWaitingTunnel : List String := ["makeKey", "storage.Delete"]
 def forwardToSourceNode : List String := ["tunnelConnMgr.CreateDedicatedConnection", "crossNodePool.Get", "WriteFrame", "runCrossNodeDataForwardDedicated"]
 def hybrid_Delete : List String := ["getCategory", "getCacheForKey", "cache.Delete", "cache.Delete", "persistent.Delete", "cache.Delete", "persistent.Delete"]
-def hybrid_Get : List String := ["getCategory", "getCacheForKey", "cache.Get", "cache.Get", "getSharedPersistent", "cache.Get", "persistent.Get"]
+def hybrid_Get : List String := ["getCategory", "getCacheForKey", "cache.Get", "getSharedPersistent", "cache.Get", "persistent.Get"]
 def hybrid_Set : List String := ["getCategory", "setPersistent", "setShared", "setSharedPersistent", "setRuntime"]
 def hybrid_getCacheForKey : List String := ["isShared"]
-def hybrid_setShared : List String := ["getCacheForKey", "cache.Set", "cache.Set"]
+def hybrid_setShared : List String := ["getCacheForKey", "cache.Set"]
 def lookupTunnelRouting : List String := ["ctx.Done", "tunnelRouting.LookupWaitingTunnel", "time.Sleep"]
 def processCrossNodeForward : List String := ["handleLocalBridgeWait", "forwardToSourceNode"]
 def runBridgeLifecycle_c09 : List String := ["bridge.Close", "bridge.Start", "bridgeLock.Lock", "delete", "bridgeLock.Unlock", "tunnelRouting.RemoveWaitingTunnel"]
